@@ -11,7 +11,7 @@ from prop import SchedProp  # noqa: E402
 class C02(SchedProp):
     id = 'C02'
     kinds = ('any', 'any', 'complete')
-    gen_opts = {'late': 0.2, 'prep_fail': 0.15}
+    gen_opts = {'late': 0.2, 'prep_fail': 0.15, 'fail_signals': True}
     props_modules = ['CylcModel.Props.C02']
     theorems = [
         'CylcModel.C02.no_double_submit',
@@ -50,12 +50,14 @@ class C02(SchedProp):
         'no_double_submit_pf, retry_counters_bounded_pf and retry_bound_pf carry the theorems over to the extended '
         'model (attempts = launches + failed preparations). Not modelled: the waiting_on_job_prep flag itself (its '
         'effect - a proxy whose preparation failed is not sent to preparation again without a retry - is what the '
-        'correspondence and the judge decide), the other preparation failure paths (platform / host selection)')
+        'correspondence and the judge decide), the other preparation failure paths (platform / host selection). The JSON '
+        'layer of the model (SchedPF.canonMsg) reads failed/<SIGNAL> and aborted/<reason> as the output failed')
     technique = ('refinement of the Lean scheduler model to atomic actions + inductive invariants / launch-log relation '
                  'over all op lists + potential function on the retry automaton + trace correspondence + trace judge')
     trusted = ['the runner instrumentation (wrapper around process_message that records state before/after)']
     rule = ('as C01, two thirds of the runs of kind any (failures, submit failures, duplicate / stale / out-of-order '
-            'messages, late duplicates of the last message of finished jobs, job-file preparation failing for 15% of the '
+            'messages, failure reports in the forms job scripts send (failed/<SIGNAL>, aborted/<reason>), late duplicates of the '
+            'last message of finished jobs, job-file preparation failing for 15% of the '
             'submissions: the real _prep_submit_task_job runs with JobFileWriter.write raising), tasks with 0-2 execution and 0-1 submission retry delays; non-trivial = distinct (kind, ending, '
             'launch-count class, polls) class per distinct case')
 
